@@ -605,25 +605,37 @@ func r11_4(c *RC) {
 		}
 	}
 	// HTTP proxy unreachable with credentials
+	// (the listener configuration may be built in a helper of the function
+	// that starts the proxies)
 	var goHTTP ssa.Instruction
-	instrs(host, func(_ *ssa.BasicBlock, _ int, in ssa.Instruction) {
-		g, ok := in.(*ssa.Go)
-		if !ok {
-			return
+	httpHosts := []*ssa.Function{host}
+	for _, cs := range p.CallsToFn(host) {
+		httpHosts = append(httpHosts, cs.Fn)
+	}
+	for _, hh := range httpHosts {
+		if goHTTP != nil {
+			break
 		}
-		if mc, ok := g.Call.Value.(*ssa.MakeClosure); ok {
-			cf := mc.Fn.(*ssa.Function)
-			instrs(cf, func(_ *ssa.BasicBlock, _ int, x ssa.Instruction) {
-				if cl, ok := x.(ssa.CallInstruction); ok && calleeName(cl) == "NewHTTPProxyServer" {
-					goHTTP = in
-				}
-			})
-		}
-	})
+		instrs(hh, func(_ *ssa.BasicBlock, _ int, in ssa.Instruction) {
+			g, ok := in.(*ssa.Go)
+			if !ok {
+				return
+			}
+			if mc, ok := g.Call.Value.(*ssa.MakeClosure); ok {
+				cf := mc.Fn.(*ssa.Function)
+				instrs(cf, func(_ *ssa.BasicBlock, _ int, x ssa.Instruction) {
+					if cl, ok := x.(ssa.CallInstruction); ok && calleeName(cl) == "NewHTTPProxyServer" {
+						goHTTP = in
+					}
+				})
+			}
+		})
+	}
 	if goHTTP == nil {
 		c.Undecided("http-proxy-exclusion", host.Pos(), "cannot find the goroutine that starts NewHTTPProxyServer in %s", fnName(host))
 		return
 	}
+	host = goHTTP.Parent()
 	cut := func(from *ssa.BasicBlock, idx int) bool {
 		if iff, ok := from.Instrs[len(from.Instrs)-1].(*ssa.If); ok {
 			if bo, ok := iff.Cond.(*ssa.BinOp); ok {
